@@ -82,16 +82,27 @@ Theorem C17_roundtrip_iso2022jp : forall rs bs, ~ In 27 rs ->
 Proof. exact (fun rs bs => jp_roundtrip rs 0 bs (or_introl eq_refl)). Qed.
 
 (* the running decoder on every accepted one-character text (observed while the
-   tables were dumped): no rune comes back different, except ESC in ISO-2022-JP *)
+   tables were dumped): no rune comes back different; in ISO-2022-JP ESC (reserved by RFC 1468, excluded by the
+   property) is the only one that may *)
 Theorem C17_single_character_decode_observed :
   rt_bad_ascii = [] /\ rt_bad_latin1 = [] /\ rt_bad_cyrillic = [] /\ rt_bad_hebrew = [] /\ rt_bad_ucs2 = [] /\
-  rt_bad_sjis = [] /\ rt_bad_eucjp = [] /\ rt_bad_euckr = [] /\ rt_bad_iso2022jp = [27] /\ unparsed_iso2022jp = [].
+  rt_bad_sjis = [] /\ rt_bad_eucjp = [] /\ rt_bad_euckr = [] /\ (forall r, In r rt_bad_iso2022jp -> r = 27) /\ unparsed_iso2022jp = [].
 Proof. exact rt_observed. Qed.
 
 (* --- every data_coding value with an encoder has a decoder and a splitter -- *)
 Theorem C17_availability : forall dc, dc < 256 ->
   has_encoder dc = true -> has_decoder dc = true /\ has_splitter dc = true.
 Proof. exact availability. Qed.
+
+(* ... and they are the decoder and the splitter of the SAME coding: encoder, decoder and splitter of each of the 256
+   values were classified separately by behaviour over every scalar value (dc_closure: smallest table constant that
+   behaves alike; 255 none, 254 like no table constant); a value with an encoder has a decoder and a splitter and
+   all three are those of one table constant b *)
+Theorem C17_dc_closed : forall dc, dc < 256 -> has_encoder dc = true ->
+  dec_class dc <> 255 /\ spl_class dc <> 255 /\
+  exists b, In b table_constants /\ enc_class dc = b /\ enc_class b = b /\
+            dec_class dc = dec_class b /\ spl_class dc = spl_class b.
+Proof. exact dc_closed. Qed.
 
 Theorem C17_encode_never_panics : forall c rs, encode c rs <> Panic.
 Proof. exact encode_no_panic. Qed.
@@ -105,5 +116,7 @@ Example C17_examples :
   encode CSjis [26085; 26412; 65398; 97] = Ok (hx "93fa967bb661") /\
   encode CIso2022jp [97; 26085; 65398; 10] = Ok (hx "611b2442467c1b2849361b28420a") /\
   decode CIso2022jp (hx "611b2442467c1b2849361b28420a") = Ok [97; 26085; 65398; 10] /\
-  has_encoder 8 = true /\ has_encoder 244 = true /\ has_encoder 2 = false.
+  has_encoder 8 = true /\ has_encoder 244 = true /\ has_encoder 2 = false /\
+  closure_row 240 = Some (240, 0, 0, 0) /\ closure_row 244 = Some (244, 8, 8, 8) /\ closure_row 224 = Some (224, 8, 8, 8) /\
+  closure_row 6 = Some (6, 6, 6, 1) /\ closure_row 192 = Some (192, 255, 255, 255).
 Proof. vm_compute. repeat split; reflexivity. Qed.
